@@ -265,7 +265,28 @@ class SpecEval:
         bound, guard, binding = self._domain(var, dom)
         env = dict(self.env)
         env[var] = binding
-        body = self.sub(env=env).boolean(node.args[2])
+        mark = V.fresh_mark()
+        outer, self.facts = self.facts, []
+        try:
+            body = self.sub(env=env).boolean(node.args[2])
+            local = self.facts
+        finally:
+            self.facts = outer
+        # Facts produced while evaluating the body (cardinality / fold / well-formedness schemas about terms of the
+        # body) may mention the bound variable.  They are instances of schemas valid for every value, so they are
+        # generalised over the bound variable; a fact that *defines* a fresh symbol in terms of the bound variable
+        # cannot be generalised (one symbol, many definitions) and is refused.
+        bnames = {b.decl().name() for b in bound}
+        for f in local:
+            syms = V.free_symbols(f)
+            if not (syms & bnames):
+                outer.append(f)
+                continue
+            fresh_defs = [n for n in syms - bnames if V.serial_of(n) > mark]
+            if fresh_defs:
+                raise SpecError(f"under the quantifier over `{var}` a sub-term needs a fresh symbol ({fresh_defs[0]}) defined in terms of "
+                                f"the bound variable; restate the clause without it")
+            outer.append(z3.ForAll(bound, f))
         if universal:
             return V.mk_bool(z3.ForAll(bound, z3.Implies(guard, body)))
         return V.mk_bool(z3.Exists(bound, z3.And(guard, body)))
@@ -433,6 +454,39 @@ class SpecEval:
         if V.is_empty_literal(lst):
             return V.empty_set(T.NAME)
         return nameset_app(self.ex, lst, self.st, self.facts)
+
+    def fn_count_in(self, node):
+        """count_in(L, S): the number of positions i of list L with L[i].name in S (snoc-recursive in L).
+        Lemma schema (props/lemmas.py lemma_count_in, by induction on len(L)): pairwise distinct names and
+        S a subset of nameset(L)  =>  count_in(L, S) == |S|."""
+        lst = O.strip_opt(self.ev(node.args[0]))
+        s_ = self.ev(node.args[1])
+        if V.is_empty_literal(lst) or V.is_empty_literal(s_):
+            return V.mk_int(0)
+        rec, fty = S.lookup_field(lst.ty.elem.name, "name") if lst.ty.elem.kind == "ref" else (None, None)
+        if rec is None or fty.kind != "name" or s_.ty != T.SetT(T.NAME):
+            raise SpecError("count_in(list of objects with a Name-typed `name`, Set[Name])")
+        (harr,) = self.st.heap.key_arrays(rec, "name", fty)
+
+        def app(l):
+            parts = list(l.parts) + [harr, s_.t]
+            key = ("count_in", tuple(p.sort().sexpr() for p in parts))
+            if key not in _misc_fns:
+                _misc_fns[key] = z3.Function(f"count_in_{len(_misc_fns)}", *([p.sort() for p in parts] + [z3.IntSort()]))
+            return _misc_fns[key](*parts)
+        n = V.list_len(lst)
+        r = app(lst)
+        nm = lambda k: z3.Select(harr, V.list_get(lst, k).t)
+        prev = Val(lst.ty, list(lst.parts[:-1]) + [n - 1])
+        self.facts.append(z3.Implies(n <= 0, r == 0))
+        self.facts.append(z3.Implies(n >= 1, r == app(prev) + z3.If(z3.Select(s_.t, nm(n - 1)), 1, 0)))
+        self.facts.append(z3.Implies(n >= 0, z3.And(0 <= r, r <= n)))
+        i, j = z3.Int(V.fresh_name("qi")), z3.Int(V.fresh_name("qj"))
+        distinct = z3.ForAll([i, j], z3.Implies(z3.And(0 <= i, i < j, j < n), nm(i) != nm(j)))
+        ns = nameset_app(self.ex, lst, self.st, self.facts)
+        self.facts.extend(O.facts_for_card(s_))
+        self.facts.append(z3.Implies(z3.And(distinct, O.set_subset(s_, ns)), r == V.set_card(s_)))
+        return V.mk_int(r)
 
     def fn_card_in(self, node):
         """card_in(S, C) = |S intersect C| ; exact facts are emitted when S grows by set.add (see card_in_facts_add)."""
